@@ -26,12 +26,44 @@ PROP = "C03"
 LEAN_PROPS = "PpciVerif/Props/C03.lean"
 LEAN_TARGETS = ["PpciVerif.Props.C03", "Drivers.C03"]
 LEVEL = "proof"
-LEVEL_TEXT = "(filled in below)"
-LEVEL_NOTE = ""
-TECHNIQUE = ""
-RULE = ""
-TRUSTED = []
-ASSUMPTIONS = []
+LEVEL_TEXT = (
+    "V+P. (V) Lean theorem for ALL modules and functions, no size bound: the Boolean checker Spec.IR.wfFunc/wfModule accepts exactly the "
+    "functions/modules that satisfy the DECLARATIVE definition of well-formed written from the property text (Spec.IRWF.WF: every block "
+    "ends in exactly one terminator, every block reachable by a path from the entry, every use dominated by its definition where "
+    "dominance = every path from the entry passes through the defining block, every phi has exactly one incoming value per predecessor, "
+    "operand types agree incl. call signatures) - wf_checker_decides_WF, resting on reach_is_path_reachability and "
+    "dominates_is_path_dominance. Every module produced by every real pass (9 classes of ppci/opt alone, every pass inside api.optimize at "
+    "levels 0/1/2/s observed by wrapping FunctionPass.run, random pass sequences) on checker-accepted input is fed through that checker on "
+    "every run, so each acceptance is a kernel-checked proof that THIS output is well-formed; a Python exception in a pass is a failing input. "
+    "(P) Lean theorems about the pass models Model.Opt, for all inputs: Value.replace_by keeps WF under type/dominance side conditions "
+    "(replace_by_preserves_wf), CommonSubexpressionElimination keeps every well-formed module well-formed (cse_preserves_wf, no side "
+    "condition), RemoveAddZero does so when no call goes through the result of a binop (removeAddZero_preserves_wf_partial; the unguarded "
+    "statement is refuted by a Lean-checked witness = open finding). NOT shown as theorems: DeleteUnused, ConstantFolder (stated as "
+    "*_full), LoadAfterStore, CJump, mem2reg, clean, tailcall - for those only the per-output validation holds."
+)
+LEVEL_NOTE = (
+    "trusted: Lean kernel; axioms propext/Classical.choice/Quot.sound; the structural serialiser harness/irser.py (ppci objects -> Spec.IR "
+    "text, object identity -> names) and the Lean parser Spec.IRParse; the generators bound which pass outputs are seen (the universal "
+    "quantifier over programs is discharged per output, not by a preservation proof, except for CSE / guarded RemoveAddZero whose models are "
+    "tied to the code by a differential run); the definition of well-formed treats an indirect call as unchecked (as ppci's verifier does)"
+)
+TECHNIQUE = ("Lean 4: verified validator (Boolean checker proved equivalent to a declarative path-based definition) run on every real "
+             "pass output + invariant proofs of pass models (substitution lemma, foldl invariants) + differential correspondence model/pass")
+RULE = ("inputs: fixed corpus (CFG shapes of every past finding: constant cjump with dead arm / stale phi / same target / dead loop, tail "
+        "call with loop-header entry, mem2reg critical edges, empty-block chains, values in two operand slots, indirect call through a "
+        "replaced value), front-end produced modules (c_to_ir of 7 C sources), irgen modules (6 configurations) optionally pessimised "
+        "(x+0, constant cjumps, values/phis demoted to stack slots). pipelines per input: 9 single passes, api.optimize levels, random "
+        "sequences of 3..10 passes. evaluation = one pass application whose output differs from its input; distinct non-trivial = distinct "
+        "(input, pipeline, step) whose output differs from its input")
+TRUSTED = [
+    "Spec.IRWF (declarative definition of well-formed, written from the property text) and Spec.IR.wfFunc (checker, independent of ppci.irutils.verify)",
+    "harness/irser.py structural serialiser and Spec.IRParse (exchange format), harness/c02_ir.py loader (text -> ppci objects by public constructors)",
+    "hand models Model.Opt.{removeAddZero,cse,deleteUnused,constFold} of ppci/opt, tied by differential run (alpha-equivalence of outputs) on every check",
+]
+ASSUMPTIONS = [
+    "values and blocks are identified by object identity in ppci and by unique names in Spec.IR (the serialiser makes names unique)",
+    "a pass is judged on the module it receives: the first pass of a sequence that turns an accepted module into a rejected one is the failing one",
+]
 
 WORKERS = int(os.environ.get("C03_WORKERS", "4"))
 
@@ -127,6 +159,8 @@ def pipeline_pass_set():
 def K(name, funcs, vars_="", externs=""):
     return f"(module {name} (externs{externs}) (vars{vars_}) (funcs {funcs}))"
 
+
+F1 = "(func f1 local i32 e (params (x i32)) (blocks (block e (ret %x)))) "
 
 CORPUS = [
     # --- CJumpPass: constant condition ---
@@ -242,6 +276,21 @@ CORPUS = [
     ("constfold-chain", K("k24", "(func f global i8 e (params (y i8)) (blocks (block e "
      "(const %c i8 100) (binop %a i8 add %y %c) (binop %b i8 add %a %c) (cast %w i32 %c) (cast %v i8 %w) "
      "(binop %r i8 sub %b %v) (ret %r))))")),
+    # --- an indirect call through a value that a pass replaces by a global (open findings *:operand-types[call-signature]) ---
+    ("callee-addzero", K("c1", F1 + "(func main global i32 e (params (a i32) (b i32)) (blocks (block e "
+     "(const %z ptr 0) (binop %p ptr add @f1 %z) (fcall %r i32 %p %a %b) (ret %r))))")),
+    ("callee-las", K("c2", F1 + "(func main global i32 e (params (a i32) (b i32)) (blocks (block e "
+     "(alloc %s 8 8) (addrof %ps %s) (store ptr @f1 %ps) (load %p ptr %ps) "
+     "(fcall %r i32 %p %a %b) (ret %r))))")),
+    ("callee-mem2reg", K("c3", F1 + "(func main global i32 e (params (a i32) (b i32)) (blocks (block e "
+     "(alloc %s 8 8) (addrof %ps %s) (store ptr @f1 %ps) (jump n)) "
+     "(block n (load %p ptr %ps) (fcall %r i32 %p %a %b) (ret %r))))")),
+    ("callee-clean", K("c4", F1 + "(func main global i32 e (params (a i32) (b i32)) (blocks "
+     "(block e (jump n)) (block n (phi %p ptr (e @f1)) (fcall %r i32 %p %a %b) (ret %r))))")),
+    # the same shapes with matching arguments stay well-formed
+    ("callee-ok", K("c5", F1 + "(func main global i32 e (params (a i32) (b i32)) (blocks (block e "
+     "(const %z ptr 0) (binop %p ptr add @f1 %z) (fcall %r i32 %p %a) (alloc %s 8 8) (addrof %ps %s) "
+     "(store ptr @f1 %ps) (load %q ptr %ps) (fcall %r2 i32 %q %b) (binop %w i32 add %r %r2) (ret %w))))")),
     # --- LoadAfterStore ---
     ("las-forward", K("k25", "(func f global i32 e (params (a i32) (b i32)) (blocks (block e "
      "(alloc %s 8 4) (addrof %ps %s) (store i32 %a %ps) (load %r i32 %ps) (store i32 %b %ps) (load %q i32 %ps) "
@@ -371,11 +420,11 @@ def texts_of(plan):
 
 
 def violated(reply):
-    """'ok 0 f:check1,check2;g:check' -> sorted list of distinct check names"""
+    """'ok 0 f:check1,operand-types[binop+phi];g:check' -> sorted list of distinct violated clauses"""
     out = set()
     for part in reply[5:].split(";"):
         if ":" in part:
-            out.update(part.rsplit(":", 1)[1].split(","))
+            out.update(part.split(":", 1)[1].split(","))
     return sorted(out)
 
 
@@ -474,7 +523,7 @@ def drive(ctx, plans):
     def one(k):
         lines = []
         for t in bins[k]:
-            lines += ["load " + t, "wf"]
+            lines += ["load " + t, "wfx"]
         for (_, _, text, n) in mbins[k]:
             lines += ["load " + text, "pass " + n]
         if not lines:
